@@ -502,6 +502,65 @@ fn run_session_messages(msgs: Vec<SessMsg>, rep: &mut Report) {
     }
 }
 
+/// The reply tape holds the request itself (an echo: a line like any other, returned as the reply and not paced) and
+/// behind it an in-progress report, which the NEXT exchange reads. Whichever call RETURNS an in-progress report does so no
+/// sooner than 100 ms after the read that completed it; the call that returns the echo has nothing to wait for.
+fn echo_then_report(rep: &mut Report) {
+    let mut reqs = vec![RefMsg::Hello(3), RefMsg::Query(3)];
+    reqs.extend((0..N_OPS).map(|o| RefMsg::Request(3, o)));
+    for req in &reqs {
+        for st_code in [S_LOAD_PROG, S_SHOW_PROG] {
+            for first in [true, false] {
+                // (first: the echo comes first and the report second; otherwise the other way round)
+                let lines = if first { [req.clone(), RefMsg::Report(3, st_code)] } else { [RefMsg::Report(3, st_code), req.clone()] };
+                let shown = format!("{} <- {} then {}", req.show(), lines[0].show(), lines[1].show());
+                rep.case(Some(fnv(shown.as_bytes())));
+                let mut tape = vec![];
+                tape.extend_from_slice(&refs::wire(&lines[0]));
+                tape.extend_from_slice(&refs::wire(&lines[1]));
+                tape.extend_from_slice(SENTINEL);
+                let st = doubles::shared(doubles::WEIRD_SETTINGS);
+                let port = InstrPort::scripted(st.clone(), FragReader::plain(tape), FragWriter::new(vec![], WriteAct::Accept(usize::MAX)));
+                let Ok(mut bus) = SerialSignBus::try_new(port) else {
+                    rep.note("measure_error/echo", J::s("try_new failed"));
+                    continue;
+                };
+                let r = catch(|| {
+                    let mut out = vec![];
+                    for _ in 0..2 {
+                        let n0 = st.borrow().log.len();
+                        std::thread::current().unpark();
+                        let got = bus.process_message(refs::from_ref(req)).map(|o| o.map(|m| refs::to_ref(&m))).map_err(|e| e.to_string());
+                        out.push((n0, Instant::now(), got));
+                    }
+                    out
+                });
+                let Ok(out) = r else {
+                    rep.note("measure_error/echo", J::s(format!("panic in [{}]", shown)));
+                    continue;
+                };
+                let log = st.borrow().log.clone();
+                for (k, (n0, t_ret, got)) in out.iter().enumerate() {
+                    let hi = out.get(k + 1).map(|o| o.0).unwrap_or(log.len());
+                    let last_read_end = log[*n0..hi].iter().filter(|e| matches!(e.ev, PortEv::Read { .. })).map(|e| e.t1).next_back();
+                    let (Ok(Some(m)), Some(t)) = (got, last_read_end) else { continue };
+                    let gap = t_ret.duration_since(t);
+                    if matches!(m, RefMsg::Report(_, s) if *s == S_LOAD_PROG || *s == S_SHOW_PROG) {
+                        rep.count("in_progress_reports_returned_beside_an_echo");
+                        if gap < RECV_PACE {
+                            rep.violation(MON, "in_progress_report_not_paced", &shown, format!("[{}]: call #{} returned {} only {:.3} ms after the read that completed it (< 100 ms)", shown, k, m.show(), ms(gap)), J::obj(vec![("tape", J::s(shown.clone())), ("call", J::u(k as u64)), ("gap_ms", J::Num(ms(gap)))]));
+                        }
+                    } else {
+                        rep.min("echo_returned_gap", ms(gap));
+                        rep.count("echoes_returned");
+                    }
+                }
+                rep.count("echo_then_report_tapes");
+            }
+        }
+    }
+}
+
 /// Slow ports: the chunk's write (or the in-progress report's read) itself takes 10 / 20 / 45 / 120 ms.
 fn stalled_trials(trials: usize, rep: &mut Report) {
     let chunk = Cell { name: "send/SendData[16] on a port whose writes block".into(), m1: RefMsg::Data { offset: 32, data: vec![0x5A; 16] }, reply: RefMsg::Report(3, S_UNCONF), send_paced: true, recv_paced: false };
@@ -624,6 +683,8 @@ pub fn run(ctx: &Ctx) -> Outcome {
             after_k_replies(rep);
         } else if i == 4 {
             protocol_shaped_sessions(rep);
+        } else if i == 5 {
+            echo_then_report(rep);
         }
         for _ in 0..n_sessions / shards {
             session(&mut rng, rep);
@@ -651,6 +712,7 @@ pub fn run(ctx: &Ctx) -> Outcome {
         floor("a run of data chunks through one bus (300 in the quick tier, 66 000 in the thorough tier)", report.get("chunk_run_chunks") == if ctx.quick() { 300 } else { 66_000 }, report.get("chunk_run_chunks")),
         floor("a data chunk after exactly k replies of one kind, k = 0..66 and around 128 / 256", report.get("chunks_after_k_replies") >= 140, report.get("chunks_after_k_replies")),
         floor("sessions shaped like transfers (request acknowledged, k chunks, a right / wrong / zero count, then more chunks without a new request)", report.get("protocol_shaped_sessions") == 18, report.get("protocol_shaped_sessions")),
+        floor("reply tapes that hold an echo of the request and an in-progress report (8 requests x 2 states x both orders): whichever call returns the report is paced, the one that returns the echo is not", report.get("echo_then_report_tapes") == 32 && report.get("in_progress_reports_returned_beside_an_echo") >= 32 && report.get("echoes_returned") >= 32 && report.mins.get("echo_returned_gap").is_some_and(|m| *m < 30.0), format!("{} tapes, {} reports, {} echoes, min echo gap {:?} ms", report.get("echo_then_report_tapes"), report.get("in_progress_reports_returned_beside_an_echo"), report.get("echoes_returned"), report.mins.get("echo_returned_gap"))),
         floor("two sessions of 300 messages through one bus", report.get("long_sessions") == 2, report.get("long_sessions")),
         floor("every unpaced cell measured", report.get("unpaced_send_cells") == n_send_unpaced, report.get("unpaced_send_cells")),
         floor("no measurement errors", !report.notes.keys().any(|k| k.starts_with("measure_error/")), "see notes"),
